@@ -10,6 +10,22 @@ pub(crate) fn raw_array6(lg_k: u8, bytes: &[u8], num_zeros: u32, est: HipEstimat
     Array6 { lg_config_k: lg_k, bytes: bytes.to_vec().into_boxed_slice(), num_zeros, estimator: est }
 }
 
+pub(crate) fn array6_from_regs(lg_k: u8, regs: &[u8], est: HipEstimator) -> Array6 {
+    let mut a = Array6::new(lg_k);
+    let mut z = 0u32;
+    let mut i = 0;
+    while i < regs.len() {
+        a.put_raw(i as u32, regs[i]);
+        if regs[i] == 0 {
+            z += 1;
+        }
+        i += 1;
+    }
+    a.num_zeros = z;
+    a.estimator = est;
+    a
+}
+
 /// specification of the packing: register s occupies bits 6s..6s+5 of the little-endian bit stream
 pub(crate) fn spec_get6(bytes: &[u8], s: usize) -> u8 {
     let mut v = 0u8;
